@@ -40,6 +40,9 @@ func vstrd(v ssa.Value, d int, seen map[ssa.Value]bool) string {
 		if a, ok := paramArg[v]; ok {
 			return vstrd(a, d+1, seen)
 		}
+		if a, ok := argInContext(v); ok {
+			return vstrd(a, d+1, seen)
+		}
 		return "param:" + pname(v)
 	case *ssa.FreeVar:
 		return "free:" + pname(v)
@@ -280,6 +283,10 @@ func Roots(v ssa.Value) []Root {
 		switch v := v.(type) {
 		case *ssa.Parameter:
 			if a, ok := paramArg[v]; ok {
+				walk(a, path, d+1)
+				return
+			}
+			if a, ok := argInContext(v); ok {
 				walk(a, path, d+1)
 				return
 			}
